@@ -29,6 +29,8 @@ CLASSES = [
     ("KAgg", "pypika.terms", "AggregateFunction"), ("KAnalytic", "pypika.terms", "AnalyticFunction"),
     ("KExtract", "pypika.functions", "Extract"), ("KExists", "pypika.terms", "ExistsCriterion"),
     ("KAtTz", "pypika.terms", "AtTimezone"), ("KSetOp", "pypika.queries", "_SetOperation"),
+    ("KChHasAny", "pypika.clickhouse.array", "HasAny"), ("KChArrayFn", "pypika.clickhouse.array", "Length"),
+    ("KChToFixed", "pypika.clickhouse.type_conversion", "ToFixedString"),
     ("KQuery", "pypika.queries", "QueryBuilder"), ("KClickHouse", "pypika.dialects", "ClickHouseQueryBuilder"),
     ("KPostgres", "pypika.dialects", "PostgreSQLQueryBuilder"), ("KMySQL", "pypika.dialects", "MySQLQueryBuilder"),
     ("KJoin", "pypika.queries", "Join"), ("KJoinOn", "pypika.queries", "JoinOn"), ("KJoinUsing", "pypika.queries", "JoinUsing"),
@@ -47,6 +49,7 @@ SLOTS = {
     "KNested": ["left", "right", "nested"], "KAgg": ["args", "_filters"],
     "KAnalytic": ["args", "_filters", "_partition", "_orderbys"], "KExtract": ["field"], "KExists": ["container"],
     "KAtTz": ["field"], "KSetOp": ["base_query", "_set_operation", "_orderbys"],
+    "KChHasAny": ["_left_array", "_right_array"], "KChArrayFn": ["_array"], "KChToFixed": ["_field"],
     "KQuery": list(QSLOTS), "KClickHouse": QSLOTS + ["_limit_by", "_distinct_on"],
     "KPostgres": QSLOTS + ["_distinct_on", "_returns", "_using", "_on_conflict_fields", "_on_conflict_do_updates",
                            "_on_conflict_wheres", "_on_conflict_do_update_wheres"],
@@ -570,6 +573,9 @@ def _samples():
         "KExtract": extract_,
         "KExists": lambda s: T.ExistsCriterion(sub(s, "container")),
         "KAtTz": lambda s: T.AtTimezone(f(s, "field"), "UTC"), "KSetOp": setop,
+        "KChHasAny": lambda s: __import__("pypika.clickhouse.array", fromlist=["HasAny"]).HasAny(f(s, "_left_array"), f(s, "_right_array")),
+        "KChArrayFn": lambda s: __import__("pypika.clickhouse.array", fromlist=["Length"]).Length(f(s, "_array")),
+        "KChToFixed": lambda s: __import__("pypika.clickhouse.type_conversion", fromlist=["ToFixedString"]).ToFixedString(f(s, "_field"), 3),
         "KQuery": lambda s: sample_query(Query, s), "KClickHouse": lambda s: sample_query(ClickHouseQuery, s, True),
         "KPostgres": lambda s: sample_query(PostgreSQLQuery, s, kind="pg"),
         "KMySQL": lambda s: sample_query(MySQLQuery, s, kind="mysql"),
@@ -809,11 +815,7 @@ REVIEWED_NO_TABLE = {
     ("terms.WindowFrameAnalyticFunction", "bound"): "Edge objects holding numbers", ("terms.WindowFrameAnalyticFunction", "frame"): "str",
 }
 # attributes that CAN hold a table / term and are still not visited: the open findings
-KNOWN_UNVISITED = {
-    ("clickhouse.array.HasAny", "_left_array"): "C15-ch-hasany-left", ("clickhouse.array.HasAny", "_right_array"): "C15-ch-hasany-right",
-    ("clickhouse.array._AbstractArrayFunction", "_array"): "C15-ch-arrayfunction-raises",
-    ("clickhouse.type_conversion.ToFixedString", "_field"): "C15-ch-tofixedstring-field",
-}
+KNOWN_UNVISITED = {}
 
 
 def scan_classes():
